@@ -140,6 +140,13 @@ func init() {
 			scs = append(scs, scenario{"cookie-ok", 1, 0})
 			scs = append(scs, scenario{"cookie-reject", 1, 0})
 		}
+		// provider behaviours over SEQUENCES of refresh periods (once per run, both stores):
+		//   twice-noid      rotating single-use refresh tokens, refresh answers WITHOUT id_token: the 2nd refresh must present the token the 1st one returned
+		//   nort-invalid    a stale session WITHOUT a refresh token whose ID token is no longer valid: re-validation must refuse it
+		//   nort-valid      … whose ID token is still valid: re-validated and served, no refresh call
+		for _, k := range []string{"twice-noid", "cookie-twice-noid", "nort-invalid", "cookie-nort-invalid", "nort-valid", "cookie-nort-valid"} {
+			scs = append(scs, scenario{k, 1, 0})
+		}
 		// option validation configures the process-wide logger: build the environments one
 		// after the other, silence the logger again, then run the scenarios in parallel
 		batch := 10
@@ -173,6 +180,11 @@ func init() {
 						e.idp.tokenTTL = 2 * time.Second // the ID token and the session expire while we wait
 					}
 					e.idp.mu.Unlock()
+					if k := strings.TrimPrefix(sc.kind, "cookie-"); k == "twice-noid" || k == "nort-invalid" || k == "nort-valid" {
+						e.seqScenario(c, k, in, si)
+						c.count("scenario:" + k)
+						return
+					}
 					b := newBrowser()
 					lr := e.login(b, defaultUser(), "/")
 					created := time.Now()
@@ -296,6 +308,70 @@ func init() {
 			wg.Wait()
 		}
 		c.close([]string{"scenario:once", "scenario:keep-old", "scenario:reject", "scenario:cookie-ok", "scenario:cookie-reject",
-			"concurrency:2", "concurrency:16"})
+			"concurrency:2", "concurrency:16", "scenario:twice-noid", "scenario:nort-invalid", "scenario:nort-valid"})
 	})
+}
+
+// seqScenario: sequences of refresh periods with provider behaviours the concurrent scenarios do not cover
+func (e *testEnv) seqScenario(c *suiteCtx, kind string, in map[string]interface{}, si int) {
+	u := defaultUser()
+	switch kind {
+	case "twice-noid":
+		e.idp.mu.Lock()
+		e.idp.refreshReturnsIDToken = false
+		e.idp.mu.Unlock()
+		b := newBrowser()
+		if lr := e.login(b, u, "/"); !lr.OK {
+			c.violation("HARNESS", "login failed in refresh-e2e/"+kind, in)
+			return
+		}
+		created := time.Now()
+		for round := 1; round <= 3; round++ {
+			waitStale(created, 0)
+			res := e.fire(1, b.cookieHeader())
+			created = time.Now()
+			if res[0].raw != nil {
+				b.apply(res[0].raw)
+			}
+			refreshes, staleUse, seq := e.idpCounts()
+			in["round"], in["idp_refresh_calls"], in["idp_stale_refresh_token_uses"], in["status"] = round, refreshes, staleUse, res[0].status
+			c.casen(fmt.Sprintf("%d:%s:%d", si, kind, round), fmt.Sprintf("refreshes=%d stale=%d status=%d", refreshes, staleUse, res[0].status))
+			if staleUse != 0 {
+				c.violation("C12", fmt.Sprintf("refresh #%d presented an already used (rotated) refresh token: the session did not keep the token the previous refresh returned", round), in)
+				return
+			}
+			if refreshes != round || res[0].status != 200 || res[0].at != fmt.Sprintf("at-%d", seq) {
+				c.violation("C12", fmt.Sprintf("refresh period #%d (answers without id_token, rotating refresh tokens): status %d, upstream token %q, %d refreshes at the identity provider (want 200, the newest token, %d)",
+					round, res[0].status, res[0].at, refreshes, round), in)
+				return
+			}
+		}
+	case "nort-invalid", "nort-valid":
+		s := e.sessionFor(u, 3*time.Second) // older than the 1 s refresh period
+		s.RefreshToken = ""
+		if kind == "nort-invalid" {
+			past := time.Now().Add(-time.Hour)
+			e.idp.mu.Lock()
+			e.idp.expOverride = &past
+			e.idp.mu.Unlock()
+			s.IDToken = e.idp.idToken(u, e.idp.refreshNonce)
+			e.idp.mu.Lock()
+			e.idp.expOverride = nil
+			e.idp.mu.Unlock()
+		}
+		ck := e.issueSessionCookie(s)
+		res := e.fire(1, ck)
+		refreshes, _, _ := e.idpCounts()
+		in["status"], in["idp_refresh_calls"], in["cleared"] = res[0].status, refreshes, res[0].cleared
+		c.casen(fmt.Sprintf("%d:%s", si, kind), fmt.Sprintf("status=%d cleared=%v", res[0].status, res[0].cleared))
+		if kind == "nort-invalid" {
+			if res[0].status == 200 || res[0].at != "" {
+				c.violation("C12", "a session older than the refresh period without a refresh token, whose ID token the identity provider no longer accepts, was honoured without successful re-validation", in)
+			} else if !res[0].cleared {
+				c.violation("C12", "re-validation of a stale session failed but the session cookie was not cleared", in)
+			}
+		} else if res[0].status != 200 {
+			c.violation("C12", "a stale session without a refresh token whose ID token is still valid was refused (re-validation should keep it)", in)
+		}
+	}
 }
